@@ -122,7 +122,8 @@ class Scan(ast.NodeVisitor):
                     self.dictofsets[-1].add(n.target.id)
         # loop variables ranging over the values of a dict of sets
         for n in ast.walk(node):
-            if isinstance(n, ast.For) and isinstance(n.iter, ast.Call) and isinstance(n.iter.func, ast.Attribute) \
+            # for-statements and comprehension clauses alike
+            if isinstance(n, (ast.For, ast.comprehension)) and isinstance(n.iter, ast.Call) and isinstance(n.iter.func, ast.Attribute) \
                     and isinstance(n.iter.func.value, ast.Name) and n.iter.func.value.id in self.dictofsets[-1]:
                 if n.iter.func.attr == "items" and isinstance(n.target, ast.Tuple) and len(n.target.elts) == 2 and isinstance(n.target.elts[1], ast.Name):
                     self.setnames[-1].add(n.target.elts[1].id)
